@@ -6,4 +6,4 @@ From Coq Require Extraction ExtrOcamlBasic.
 From MSP Require Import Model.Cksum Model.LzssBase Model.Lzss Model.LzssEnc.
 Extraction Language OCaml.
 Set Extraction Optimize.
-Extraction "model.ml" cksum lzss_spec lzss_enc block_accepts.
+Extraction "model.ml" cksum lzss_spec lzss_enc block_accepts lzss_enc_expand wf_tok.
